@@ -245,6 +245,10 @@ MUTANTS += [
     M("loop nudges a stalled temperature past the search result", "src/aspire/samplers/smc/base.py", "self.history.eff_target.append(\n                    self.current_target_efficiency(beta)\n                )",
       "if beta <= self.history.beta[-1] if self.history.beta else False:\n                    beta = min(beta + beta_tolerance, 1.0)\n                self.history.eff_target.append(\n                    self.current_target_efficiency(beta)\n                )", "C07once.once"),
 ]
+MUTANTS += [
+    M("the SMC sampler's constructor also accepts the target efficiency", "src/aspire/samplers/smc/base.py", "rng: np.random.Generator | None = None,\n        preconditioning_transform: Callable | None = None,\n    ):\n        super().__init__(\n            log_likelihood=log_likelihood,",
+      "rng: np.random.Generator | None = None,\n        preconditioning_transform: Callable | None = None,\n        target_efficiency: float = 0.5,\n    ):\n        self.target_efficiency = target_efficiency\n        super().__init__(\n            log_likelihood=log_likelihood,", "C07.opts"),
+]
 NEUTRALS = [
     __import__("aspire_sa.rules.smcloop", fromlist=["HELPER_NEUTRAL"]).HELPER_NEUTRAL,
     M("comparison mirrored with swapped branches", _B, "if eff >= target_eff:\n                    beta_min = beta_try\n                else:\n                    beta_max = beta_try",
